@@ -85,9 +85,9 @@ Definition bcase (gs : list (order * list (list Z))) (tbl : list (Z * list (list
 # instances
 
 
-def make_instance(rng, vt, k):
+def make_instance(rng, vt, k, small=False):
     herm = rng.random() < 0.75
-    c = gen.random_case(rng, hermitian=herm, fmt=vt, max_blocks=3, max_size=3, max_params=2, N=3,
+    c = gen.random_case(rng, hermitian=herm, fmt=vt, max_blocks=3, max_size=2 if small else 3, max_params=2, N=3,
                         allow_fully=True, allow_mask=True)
     c = copy.deepcopy(c)
     if k % 2 == 0:  # first-order terms only, so that the list format applies
@@ -347,7 +347,7 @@ def observe_otbs(inst, fmt, desig, rng):
 
 
 def tie_formats(ctx, ninst=None):
-    n = ninst or ctx.n(18, 150)
+    n = ninst or ctx.n(18, 240)
     rng = ctx.rng
     terms, meta, disagreements, dist = [], [], [], {}
     nontriv = set()
@@ -455,13 +455,13 @@ def _oracle_task(task):
 
 
 def oracle_formats(ctx, ninst=None):
-    n = ninst or ctx.n(15, 90)
+    n = ninst or ctx.n(15, 240)
     rng = ctx.rng
     failures, samples, nt = [], [], set()
     vts = ["sympy", "dense", "sparse"]
     tasks = []
     for k in range(n):
-        inst = make_instance(rng, vts[k % 3], k // 3)
+        inst = make_instance(rng, vts[k % 3], k // 3, small=(vts[k % 3] == "sympy"))  # dim <= 6 for sympy
         # exact symbolic evaluation is slow: total order 3 there, 4 (thorough) for the float types
         N = 3 if (ctx.quick or inst["fmt"] == "sympy") else 4
         tasks.append((inst, rng.getrandbits(32), N))
